@@ -202,11 +202,26 @@ def main(argv):
 
     for pmsg in problems:
         inconclusive.append(("preflight", pmsg))
+    extra_rows = []
+    if hasattr(mod, "extra_checks") and not only:
+        # checks decided by the SMT engine next to the CrossHair conditions
+        for x in mod.extra_checks():
+            extra_rows.append(x)
+            if x["status"] == "violated":
+                path = os.path.join(VERIF, "replays", f"{prop}-{hashlib.md5(json.dumps(x, sort_keys=True, default=repr).encode()).hexdigest()[:10]}.json")
+                with open(path, "w") as f:
+                    json.dump(dict(prop=prop, extra=x, reproduced=True), f, indent=1, default=repr)
+                if x.get("signature") in open_sigs:
+                    known_lines.append(f"KNOWN-FINDING: property={prop} {x['signature']}: {open_sigs[x['signature']]['what']}")
+                else:
+                    violations.append((x["name"], x.get("signature", x["name"]), path))
+            elif x["status"] != "holds":
+                inconclusive.append((x["name"], x.get("detail", "")))
 
     decided = [r for r in cond_rows if not r["hunt"]]
     confirmed = [r for r in decided if r.get("verdict") == "confirmed-over-all-paths"]
     paths = sum(r["paths"] for r in cond_rows)
-    queries = sum(r["smt_queries"] for r in cond_rows)
+    queries = sum(r["smt_queries"] for r in cond_rows) + sum(x.get("queries", 0) for x in extra_rows)
     solver_s = round(sum(r["solver_s"] for r in cond_rows), 3)
     if violations:
         verdict_s, code = "VIOLATION", 1
@@ -241,6 +256,7 @@ def main(argv):
             "inconclusive": [list(x) for x in inconclusive][:20],
             "not_reproduced": [[n, str(dd)[:500]] for n, dd in nonrepro][:10],
             "condition_table": cond_rows,
+            "smt_checks": extra_rows,
         },
         "assumptions": assumptions,
         "wall_s": round(time.perf_counter() - t0, 3),
